@@ -354,6 +354,17 @@ func runC01(r *Run) {
 			Vals: map[string]string{"a": strings.Repeat("p", 32767), "b": strings.Repeat("q", vb)}}
 		r.rtCase(2, p, 0)
 	}
+	// the same with a signature, streamed in pieces: metadata + trailer together exceed 16 bits
+	for _, vb := range []int{32760, 32740} {
+		f := &RefFrame{V: 2, Type: 1, Verify: true, Cmd: 9, Rid: 3, Timeout: 7, Nonce: 99, Sig: []byte("0123456789abcdef"), Body: []byte("body-after-big-metadata"),
+			Meta: refMarshalMap(map[string]string{"a": strings.Repeat("p", 32767), "b": strings.Repeat("q", vb)}, 65535), MLenField: -1, BLenField: -1}
+		fr := f.encode()
+		o, _ := implUnpackBytes(2, newCtx(1, 2), fr)
+		want := []string{strings.TrimPrefix(o, "OK ")}
+		for _, cut := range []int{5000, 40000, len(fr) - 30, len(fr) - 3} {
+			r.streamCase(2, 1, fr, []int{cut}, 4096, 0, "", want, "signed-full-metadata")
+		}
+	}
 	// the 2^24 boundaries: 2^24-1 is the largest body, 2^24 must be refused (zeros, no gzip)
 	for v := 1; v <= 2; v++ {
 		for _, n := range []int{1<<24 - 1, 1 << 24} {
@@ -520,6 +531,22 @@ func runC10(r *Run) {
 				r.violate(Violation{What: "gzip flag / compression does not follow the rule (threshold non-zero and body length >= threshold)", Case: fmt.Sprintf("v%d len %d thr %d", v, n, thr)})
 			}
 			r.rtCase(v, p, thr)
+		}
+	}
+	// a packet whose Gzip flag is already set (one that was received compressed and is forwarded) with a plain body at or
+	// above the threshold: it is compressed like any other
+	for v := 1; v <= 2; v++ {
+		for _, n := range []int{1024, 1025, 5000} {
+			p := &PK{Type: 2, Cmd: 7, Rid: 11, Codec: 1, Gzip: true, Vals: map[string]string{}, Body: g.body(n)}
+			pkt := p.toPacket()
+			_, frame := implPack(v, newCtx(1, uint8(v)), pkt, 1024)
+			if frame != nil {
+				o, q := implUnpackBytes(v, newCtx(1, uint8(v)), frame)
+				if q == nil || !bytes.Equal(q.Body, p.Body) {
+					r.violate(Violation{What: "a packet whose gzip flag was already set does not round-trip when its body reaches the threshold: the receiver does not see the original body", Case: fmt.Sprintf("v%d body %d threshold 1024", v, n), Impl: o})
+				}
+			}
+			r.st.Evaluations++
 		}
 	}
 	// concurrency on the pools - after the error paths have been through them (a reader or writer handed back twice,
@@ -1301,6 +1328,21 @@ func (r *Run) wrapSweep(step int, full bool) {
 				if full {
 					r.streamCase(v, 1, stream, nil, capacity, off, "", want, "wrap-header")
 				}
+			}
+		}
+		// a body length whose three bytes are all different and non-zero (0x030201), the ring's end at every position of the
+		// header: the header arrives alone (the ring grows for the body afterwards, the header is parsed by then)
+		for ty := 1; ty <= 3 && full; ty++ { // (C03 only: 197 KB bodies are slow in the model runner)
+			bf := &RefFrame{V: v, Type: ty, Cmd: 0xC1, Rid: 0xA1A2A3A4, Timeout: 0xB1B2, Status: 0xD1, Body: bytes.Repeat([]byte{0x5a}, 0x030201), MLenField: -1, BLenField: -1}
+			bfr := bf.encode()
+			hl := len(bfr) - 0x030201
+			o, _ := implUnpackBytes(v, newCtx(1, uint8(v)), bfr)
+			want := []string{strings.TrimPrefix(o, "OK ")}
+			for off := 64 - hl - 1; off < 64; off++ {
+				if off < 0 {
+					continue
+				}
+				r.streamCase(v, 1, bfr, []int{hl}, 64, off, "", want, "wrap-header-bigbody")
 			}
 		}
 		// signed AND compressed: trailer and decompression both apply
